@@ -46,14 +46,106 @@ def _lib_for(modname):
 def _worker(job):
     modname, cname, seed, overrides = job[:4]
     scope = job[4] if len(job) > 4 else None
+    initial = job[5] if len(job) > 5 else None
     from pyvc.repo import Repo
     from pyvc.verify import verify_case
     mod = importlib.import_module(modname)
     case = [c for c in mod.CASES if c.name == cname][0]
     repo = Repo(overrides=overrides)
-    res = verify_case(case, repo, _lib_for(modname), seed=seed, scope=scope)
+    res = verify_case(case, repo, _lib_for(modname), seed=seed, scope=scope, initial=initial)
     out = res.to_json()
     out["scope"] = scope
+    return out
+
+
+def _frontier_worker(job):
+    """decision prefixes that partition the path space of a case declared ``shard_depth = d`` (the exploration of
+    one heavy case is spread over the process pool; the union of the shards is the whole exploration)."""
+    modname, cname, seed, overrides = job[:4]
+    scope = job[4] if len(job) > 4 else None
+    from pyvc.repo import Repo
+    from pyvc.verify import case_frontier
+    mod = importlib.import_module(modname)
+    case = [c for c in mod.CASES if c.name == cname][0]
+    try:
+        return case_frontier(case, Repo(overrides=overrides), _lib_for(modname), seed, scope, case.shard_depth)
+    except Exception:
+        return None  # fall back to the unsharded job (errors are reported there)
+
+
+def _shard_depth(job):
+    mod = importlib.import_module(job[0])
+    case = [c for c in mod.CASES if c.name == job[1]][0]
+    return getattr(case, "shard_depth", 0) or 0
+
+
+class _ShardHandle:
+    def __init__(self, handle, owner, n, fmap):
+        self.handle, self.owner, self.n, self.fmap = handle, owner, n, fmap
+
+    def get(self):
+        res = self.handle.get() if self.handle is not None else []
+        merged = [None] * self.n
+        for k, r in zip(self.owner, res):
+            merged[k] = r if merged[k] is None else _merge_shards(merged[k], r)
+        for k in self.fmap:
+            if self.fmap[k] and merged[k] is not None:
+                merged[k]["shards"] = len(self.fmap[k])
+        return merged
+
+
+def sharded_map(pool, jobs):
+    return sharded_submit(pool, jobs).get()
+
+
+def sharded_submit(pool, jobs):
+    """pool.map_async(_worker, jobs) with the jobs of sharded cases split along their frontier and the shard results
+    merged back (verdicts: refuted > unknown > discharged, paths / seconds summed; covers: any shard)."""
+    jobs = [tuple(j) for j in jobs]
+    idx = [k for k, j in enumerate(jobs) if _shard_depth(j) > 0]
+    fronts = pool.map(_frontier_worker, [jobs[k] for k in idx], chunksize=1) if idx else []
+    flat, owner = [], []
+    fmap = dict(zip(idx, fronts))
+    for k, j in enumerate(jobs):
+        fr = fmap.get(k)
+        if fr:
+            base = tuple(j[:5]) + (None,) * (5 - len(j[:5]))
+            for prefix in fr:
+                flat.append(base + (prefix,))
+                owner.append(k)
+        else:
+            flat.append(j)
+            owner.append(k)
+    handle = pool.map_async(_worker, flat, chunksize=1) if flat else None
+    return _ShardHandle(handle, owner, len(jobs), fmap)
+
+
+_RANK = {"discharged": 0, "unknown": 1, "refuted": 2}
+
+
+def _merge_shards(a, b):
+    out = dict(a)
+    vs = {v["name"]: dict(v) for v in a["verdicts"]}
+    for v in b["verdicts"]:
+        if v["name"] not in vs:
+            vs[v["name"]] = dict(v)
+            continue
+        o = vs[v["name"]]
+        o["paths"] += v["paths"]
+        o["seconds"] = round(o["seconds"] + v["seconds"], 4)
+        if _RANK[v["status"]] > _RANK[o["status"]]:
+            o["status"], o["prims"], o["detail"] = v["status"], v["prims"], v["detail"]
+    out["verdicts"] = list(vs.values())
+    out["covers"] = {k: bool(a["covers"].get(k)) or bool(b["covers"].get(k)) for k in set(a["covers"]) | set(b["covers"])}
+    out["error"] = a["error"] or b["error"]
+    out["paths"] = a["paths"] + b["paths"]
+    out["seconds"] = round(max(a["seconds"], b["seconds"]), 3)  # wall time of the slowest shard
+    out["solver_seconds"] = round(a["solver_seconds"] + b["solver_seconds"], 3)
+    out["trusted"] = sorted(set(a["trusted"]) | set(b["trusted"]))
+    out["calls"] = sorted(set(a["calls"]) | set(b["calls"]))
+    files = dict(a["files"])
+    files.update(b["files"])
+    out["files"] = files
     return out
 
 
@@ -195,7 +287,7 @@ def main(argv=None):
     with mp.Pool(args.jobs) as pool:
         # the bounded tier (native subprocesses) and the canary mutants run alongside the proof jobs
         bounded_future = side.submit(run_bounded, prop, cases, tier, known)
-        all_res_async = pool.map_async(_worker, jobs + also_jobs, chunksize=1) if jobs else None
+        all_res_async = sharded_submit(pool, jobs + also_jobs) if jobs else None
         canaries_started = start_canaries(prop, pool, seed)
         all_res = all_res_async.get() if all_res_async is not None else []
         phase("proof")
@@ -207,7 +299,7 @@ def main(argv=None):
         for (m, c), r in [((m, c), res_by_name[c.name]) for m, c in cases if c.proved]:
             if getattr(c, "scopes", None) and any(v["status"] == "unknown" for v in r["verdicts"]):
                 fs_jobs += [(m, c.name, seed, None, n) for n in c.scopes]
-        fs_results = pool.map(_worker, fs_jobs, chunksize=1) if fs_jobs else []
+        fs_results = sharded_map(pool, fs_jobs) if fs_jobs else []
         phase("finite-scope-fallback")
         # ------------------------------------------------------------ canaries (engine must catch seeded mutants)
         canary_report = finish_canaries(canaries_started)
@@ -301,7 +393,7 @@ def main(argv=None):
     if retry:
         rjobs = [(case_by_name[n][0], n, seed, None, k) for n in retry for k in case_by_name[n][1].scopes]
         with mp.Pool(min(args.jobs, len(rjobs))) as pool2:
-            rres = pool2.map(_worker, rjobs, chunksize=1)
+            rres = sharded_map(pool2, rjobs)
         cands = []
         for rr in rres:
             for fv in rr["verdicts"]:
@@ -517,7 +609,7 @@ def start_canaries(prop, pool, seed):
                 continue
             jobs.append(("contracts." + modname, can["case"], seed, {path: src.replace(can["old"], can["new"])}))
             meta.append(can)
-    handle = pool.map_async(_worker, jobs, chunksize=1) if jobs else None
+    handle = sharded_submit(pool, jobs) if jobs else None
     return dict(handle=handle, meta=meta, report=report)
 
 
